@@ -66,6 +66,12 @@ def run(tier):
             dfz = os.path.join(d, "defrag.%s.ndjson" % target)
             vlib.run_harness(b, ["defrag-fuzz", str(vlib.seed()), "300", "20", dfz])
             lines += [json.dumps({"id": r["id"], "steps": [[x["res"], x["inprog"], x["buflen"]] for x in r["results"]]}, sort_keys=True) for r in vlib.read_ndjson(dfz)]
+            # the static tables too: the cipher-suite registry through every lookup route (all 65536 ids, the name queries) and the
+            # registry newtypes' texts and conversions must not depend on the feature set either
+            for sub, extra in (("sweep-ciphers", ["100000"]), ("sweep-registry", []), ("sweep-ext", [])):
+                tp = os.path.join(d, "%s.%s.ndjson" % (sub, target))
+                vlib.run_harness(b, [sub, tp] + extra)
+                lines += [json.dumps(x, sort_keys=True) for x in vlib.read_ndjson(tp)]
             outputs[name] = lines
             e["digest"] = hashlib.sha256("\n".join(lines).encode()).hexdigest()
             rep.count(len(lines))
